@@ -351,6 +351,12 @@ func (w *World) Step(op Op) *StepResult {
 		}
 	}
 	if !w.settle() {
+		if w.stuckTerminated != "" && (w.Checks["C10"] || w.Checks["*"]) {
+			// the terminated callback normally runs within microseconds: ten seconds later the application has not left
+			w.vio("C10", "terminated application %s is still listed as a live application of the partition (and of its queue) 10s after %s", w.stuckTerminated, op)
+			w.Dead = true
+			return res
+		}
 		w.Inconclusive = "world did not settle after " + op.String()
 		w.Dead = true
 		return res
